@@ -18,13 +18,13 @@ import (
 
 // DriverOpts configures one check run (one property, one tier).
 type DriverOpts struct {
-	Prop    string
-	Tier    Tier
-	Seed    uint64
+	Prop     string
+	Tier     Tier
+	Seed     uint64
 	VerifDir string // /verif
-	Bin     string // plain verif build
-	RaceBin string // -race verif build
-	Procs   int
+	Bin      string // plain verif build
+	RaceBin  string // -race verif build
+	Procs    int
 }
 
 type KnownFinding struct {
